@@ -313,4 +313,15 @@ Q_C03builtin == {[BaseQ EXCEPT !.items = <<it, E(Fa(1))>>, !.where = w] :
                    w \in {TRUEx, <<"nrodd">>}}
 Q_C03none == {[BaseQ EXCEPT !.items = <<E(Fa(3)), Agg("COUNT", <<"int", 1>>)>>, !.hasgroup = TRUE, !.group = <<Fa(1)>>],
               [BaseQ EXCEPT !.items = <<E(Fa(3)), Agg("MAX", Fa(2))>>]}
+--------------------------------------------------------------------------
+(* Action coverage without TLC's -coverage option (its instrumentation of the recursive Ref operators exhausts a 24 GB heap even on the
+   smallest configuration): one TLC register per action, incremented when the action is taken.  Registers are per worker, so the counting
+   run uses -workers 1; the POSTCONDITION prints them. *)
+ActionNames == <<"GrowA", "DoneA", "GrowB", "ChooseQ", "Parse", "BuildB", "SetHeader", "RunInit", "Pull", "StartRecord", "Match", "Feed", "Finish">>
+Cnt(k) == TLCSet(k, TLCGet(k) + 1)
+CountInit == Init /\ \A k \in 1..Len(ActionNames) : TLCSet(k, 0)
+CountNext == \/ (GrowA /\ Cnt(1)) \/ (DoneA /\ Cnt(2)) \/ (GrowB /\ Cnt(3)) \/ (ChooseQ /\ Cnt(4)) \/ (Parse /\ Cnt(5)) \/ (BuildB /\ Cnt(6))
+             \/ (SetHeader /\ Cnt(7)) \/ (RunInit /\ Cnt(8)) \/ (Pull /\ Cnt(9)) \/ (StartRecord /\ Cnt(10)) \/ (Match /\ Cnt(11))
+             \/ (Feed /\ Cnt(12)) \/ (Finish /\ Cnt(13))
+PrintCounts == PrintT(ToJson([action_counts |-> [k \in 1..Len(ActionNames) |-> <<ActionNames[k], TLCGet(k)>>]]))
 =============================================================================
